@@ -26,7 +26,13 @@ const (
 	cPInf  = 1000000002
 	cNInf  = 1000000003
 	cNZero = 1000000004
+	cKeep  = 1000000009 // "no alternative value"
 )
+
+// altOK reports whether got equals the alternative value the spec also accepts (if any).
+func altOK(c *pcase, got float64) bool {
+	return c.Alt != nil && *c.Alt != cKeep && same(got, *c.Alt, 0)
+}
 
 type pcase struct {
 	F     string          `json:"f"`
@@ -45,6 +51,7 @@ type pcase struct {
 	E     int             `json:"e"`
 	E32   int             `json:"e32"`
 	Tol   int64           `json:"tol"`
+	Alt   *int64          `json:"alt,omitempty"` // second accepted scalar (cKeep = none)
 	IncX  int             `json:"incx"`
 	IncY  int             `json:"incy"`
 	B     bool            `json:"b"`
@@ -398,7 +405,7 @@ func runScalar[T num](r *runner, c *pcase, binds []sbind[T], e int, cmp func(en 
 
 func exactScalar[T num](c *pcase) func(en *env[T]) string {
 	return func(en *env[T]) string {
-		if !same(en.outs, c.S, 0) {
+		if !same(en.outs, c.S, 0) && !altOK(c, en.outs) {
 			return fmt.Sprintf("got %v want(spec) %v%s", en.outs, dec[float64](c.S, 0), zeroSignNote([]float64{en.outs}, []int64{c.S}, 0))
 		}
 		return ""
@@ -437,19 +444,25 @@ func abs(k int) int {
 	return k
 }
 
-func normCmp[T num](c *pcase, e, p, tiny int) func(en *env[T]) string {
-	return func(en *env[T]) string {
-		switch c.S {
-		case cNaN, cPInf:
-			if !same(en.outs, c.S, 0) {
-				return fmt.Sprintf("got %v want(spec) %v", en.outs, dec[float64](c.S, 0))
-			}
-			return ""
-		}
-		if !withinBound(en.outs, c.S, e, c.Tol, p, tiny) {
-			return fmt.Sprintf("got %v, exact norm is %d*2^%d, outside %d*2^-%d relative bound", en.outs, c.S, e, c.Tol, p)
+// normBad compares a Euclidean norm with the spec: NaN / +Inf classes exactly (or the spec's
+// alternative), finite values r*2^e within the rounding bound.
+func normBad(c *pcase, got float64, e, p, tiny int) string {
+	switch c.S {
+	case cNaN, cPInf:
+		if !same(got, c.S, 0) && !altOK(c, got) {
+			return fmt.Sprintf("got %v want(spec) %v", got, dec[float64](c.S, 0))
 		}
 		return ""
+	}
+	if !withinBound(got, c.S, e, c.Tol, p, tiny) {
+		return fmt.Sprintf("got %v, exact norm is %d*2^%d, outside %d*2^-%d relative bound", got, c.S, e, c.Tol, p)
+	}
+	return ""
+}
+
+func normCmp[T num](c *pcase, e, p, tiny int) func(en *env[T]) string {
+	return func(en *env[T]) string {
+		return normBad(c, en.outs, e, p, tiny)
 	}
 }
 
@@ -476,6 +489,8 @@ func replay(in *core.Lines, args []string, seed int64, sum *core.Summary) error 
 		if c.Skip {
 			continue
 		}
+		// the "pairs of specials" families (suffix P) use the bindings of the base function
+		c.F = strings.TrimSuffix(c.F, "P")
 		before := sum.Cases
 		if b, ok := vec64[c.F]; ok {
 			runVec(r, &c, b, 0)
